@@ -213,6 +213,10 @@ func (c *Ctx) NewRef(st *State, prefix string) Term {
 	st.Assume(Not(Eq(r, IntLit(0))))
 	st.Assume(T(SBool, "(> %s 0)", r.S))
 	st.Assume(Not(Select(al, r)))
+	// references are handed out in increasing order: an object is older than every
+	// object allocated after it (used as a well-founded measure on immutable structures)
+	q := c.Reg.Fresh("q")
+	st.Assume(T(SBool, "(forall ((%s Int)) (=> (select %s %s) (< %s %s)))", q, al.S, q, q, r.S))
 	c.SetArr(st, famAlloc, Store(al, r, True))
 	return r
 }
@@ -506,6 +510,9 @@ func (c *Ctx) NameAlways(st *State, prefix string, t Term) Term {
 
 func (c *Ctx) Unbox(st *State, v Term, t types.Type) Term {
 	bn, un, id := c.Reg.boxName(t)
+	if len(st.qbinders) > 0 {
+		return T(c.Reg.SortOf(t), "(%s %s)", un, v.S)
+	}
 	// surjectivity instance: a value with tag T is the box of its payload
 	st.Assume(T(SBool, "(=> (= (tagof %s) %d) (= %s (%s (%s %s))))", v.S, id, v.S, bn, un, v.S))
 	return T(c.Reg.SortOf(t), "(%s %s)", un, v.S)
